@@ -260,6 +260,8 @@ package parse
 //@ func (Node).ChildrenByType
 //@   params t
 //@   ensures result == node_children_of(self, t)
+//@   ensures len(result) == node_nchildren_of(self, t) && forall(i, 0, len(result), result[i] == node_child_of(self, t, i) && result[i] != nil)
+//@   ensures isfresh(result)
 //@ func (Node).Clone
 //@   params m
 //@   ensures result != nil
